@@ -5597,11 +5597,14 @@ let bound_ok st bytes =
               then Npos (XI (XI (XO XH)))
               else Npos (XI (XI XH))) n0)) (Npos (XO (XO (XO (XO (XO (XO (XO
          (XO (XO (XO (XO (XO (XO XH)))))))))))))))
-   | DEF (m, _, xs, _, _) ->
-     let n0 = lenN xs in
+   | DEF (m, u, xs, _, _) ->
+     let n0 =
+       N.sub (N.sub (da_num_bits m.ef_high) (Npos (XO XH)))
+         (N.shiftr u m.ef_low_len)
+     in
      N.leb b
        (N.add
-         (N.add (N.mul n0 m.ef_low_len)
+         (N.add (N.mul (lenN xs) m.ef_low_len)
            (N.mul
              (match m.ef_high.da_s0 with
               | Some _ -> Npos (XI (XI (XO XH)))
